@@ -896,6 +896,54 @@ func ruleLenNarrow(c *Ctx, r *Reporter) {
 		}
 	}
 	r.note("%d 16-bit arithmetic sites in package lpm", m)
+	// the typed integer encoders of package index keep every bit of their argument: converting the
+	// argument to a narrower integer type maps values that differ in the dropped bits to one key
+	k := 0
+	for _, fn := range c.Funcs {
+		if fn.Package() == nil || shortPkg(fn.Package().Pkg.Path()) != "index" || fn.Parent() != nil || fn.Signature.Recv() != nil {
+			continue
+		}
+		res := fn.Signature.Results()
+		if res.Len() != 1 || namedTypeName(res.At(0).Type()) != "Key" {
+			continue
+		}
+		for _, p := range fn.Params {
+			pt, ok := p.Type().Underlying().(*types.Basic)
+			if !ok || pt.Info()&types.IsInteger == 0 {
+				continue
+			}
+			k++
+			var narrow *ssa.Convert
+			var walk func(v ssa.Value, d int)
+			walk = func(v ssa.Value, d int) {
+				if d > 4 || v.Referrers() == nil {
+					return
+				}
+				for _, u := range *v.Referrers() {
+					cv, ok := u.(*ssa.Convert)
+					if !ok {
+						continue
+					}
+					if bt, ok := cv.Type().Underlying().(*types.Basic); ok && bt.Info()&types.IsInteger != 0 {
+						if c.Sizes.Sizeof(bt) < c.Sizes.Sizeof(pt) && narrow == nil {
+							narrow = cv
+						}
+						walk(cv, d+1)
+					}
+				}
+			}
+			walk(p, 0)
+			key := fmt.Sprintf("%s|argument %s keeps all its bits", c.fnName(fn), p.Name())
+			if narrow == nil {
+				r.okP([]string{"C18"}, key, c.posStr(fn.Pos()), "the "+pt.Name()+" argument is never converted to a narrower integer type")
+			} else {
+				r.badP([]string{"C18"}, key, c.posStr(instrPos(narrow)), fmt.Sprintf("the %s argument is converted to %s: values that differ only in the dropped high bits (1 and 1<<32+1) get the same key, so two objects with different identifiers are one object to the table", pt.Name(), narrow.Type().String()))
+			}
+		}
+	}
+	if k < 5 {
+		r.undecidedP([]string{"C18"}, "index|typed integer encoders", "", fmt.Sprintf("expected at least 5 integer-argument encoders in package index, found %d", k))
+	}
 }
 
 func isConstInt(v ssa.Value) bool {
